@@ -876,6 +876,37 @@ func c07Place(w *World, cf *ctxFacts, r *Result) {
 			found = true
 			pos := w.Pos(fn.Pos())
 			key := "place:" + node
+			// the finished node may be handed to a function that decides whether it may stand here
+			// and gives it back (evaluateLoopControl(ctx, "break", Break{})): that function is judged,
+			// with "the node is built" read as "the parameter is returned"
+			judged := fn
+			delegIdx := -1
+			for _, b := range fn.Blocks {
+				for _, ins := range b.Instrs {
+					mi, ok := ins.(*ssa.MakeInterface)
+					if !ok || namedName(mi.X.Type()) != node || mi.Referrers() == nil {
+						continue
+					}
+					for _, ref := range *mi.Referrers() {
+						c, ok := ref.(*ssa.Call)
+						if !ok {
+							continue
+						}
+						h := c.Call.StaticCallee()
+						if h == nil || h.Blocks == nil || !w.IsProduct(pkgOf(h)) {
+							continue
+						}
+						for i, a := range c.Call.Args {
+							if a == ssa.Value(mi) && i < len(h.Params) {
+								judged, delegIdx = h, i
+							}
+						}
+					}
+				}
+			}
+			fnOrig := fn
+			fn := judged
+			_ = fnOrig
 			// a scope query with an error exit must dominate the construction; the query may sit
 			// in an extracted helper (bool or error result) or be handed over as a bound method
 			closure := helperClosure(w, fn, 3)
@@ -909,6 +940,9 @@ func c07Place(w *World, cf *ctxFacts, r *Result) {
 					scopes = append(scopes, scopeConstsIn(h)...)
 				}
 			}
+			if fnOrig != fn {
+				scopes = append(scopes, scopeConstsIn(fnOrig)...) // the admitted scopes may be handed over with the node
+			}
 			scopes = uniq(scopes)
 			delete(asking, fn)
 			switch {
@@ -916,8 +950,10 @@ func c07Place(w *World, cf *ctxFacts, r *Result) {
 				r.Bad(rule, key, pos, node+" is built without asking the scope stack for an enclosing construct")
 			case fmt.Sprint(scopes) != fmt.Sprint(want[node]):
 				r.Bad(rule, key, pos, fmt.Sprintf("%s is admitted inside the scopes %v; required is an enclosing %v (a %s outside of it must be rejected)", strings.ToLower(node), scopes, want[node], strings.ToLower(node)))
-			case !errorGuardBeforeConstruct(w, fn, node, asking):
+			case delegIdx < 0 && !errorGuardBeforeConstruct(w, fn, node, asking):
 				r.Bad(rule, key, pos, "the scope query does not lead to an error exit before "+node+" is built")
+			case delegIdx >= 0 && !errorGuardBeforeParamReturn(w, fn, fn.Params[delegIdx], asking):
+				r.Bad(rule, key, pos, "the scope query of "+FuncName(fn)+" does not lead to an error exit before the "+node+" it was handed is returned")
 			default:
 				r.Ok(rule, key, pos, fmt.Sprintf("%s only inside %v", strings.ToLower(node), scopes))
 			}
@@ -1044,6 +1080,39 @@ func errorGuardBeforeConstruct(w *World, fn *ssa.Function, node string, asking m
 		}
 	}
 	return false
+}
+
+// errorGuardBeforeParamReturn: as errorGuardBeforeConstruct, for a function that returns the
+// node it received as parameter p: every return of p is dominated by a guard on the scope query.
+func errorGuardBeforeParamReturn(w *World, fn *ssa.Function, p *ssa.Parameter, asking map[*ssa.Function]bool) bool {
+	n := 0
+	for _, b := range fn.Blocks {
+		if len(b.Instrs) == 0 {
+			continue
+		}
+		ret, ok := b.Instrs[len(b.Instrs)-1].(*ssa.Return)
+		if !ok || len(ret.Results) == 0 || ret.Results[0] != ssa.Value(p) {
+			continue
+		}
+		n++
+		guarded := false
+		for d := b.Idom(); d != nil; d = d.Idom() {
+			if len(d.Succs) != 2 || !(leadsToErrorReturn(d.Succs[0], 0) || leadsToErrorReturn(d.Succs[1], 0)) {
+				continue
+			}
+			ifi, ok := d.Instrs[len(d.Instrs)-1].(*ssa.If)
+			if !ok {
+				continue
+			}
+			if dependsOnCallInto(w, ifi.Cond, asking, map[ssa.Value]bool{}) || dependsOnScopeLoop(w, fn, ifi.Cond, asking) {
+				guarded = true
+			}
+		}
+		if !guarded {
+			return false
+		}
+	}
+	return n > 0
 }
 
 // dependsOnScopeLoop: the flag idiom — a bool variable set inside a loop whose own branch
